@@ -256,3 +256,39 @@ def rle_floats(n: int, b: int, st: int, j2: int, j3: int, j4: int) -> bool:
     j4 = mark.pick(j4, 0, 5) if n >= 5 else 0
     with mark.untraced():
         return _rle_floats(n, b, st, j2, j3, j4)
+
+
+# ---------------------------------------------------------------------------------------------------- a conversion function, and values added later
+
+FNS = [None, lambda p: p - 0x50, lambda p: 2 * p, lambda p: -p]
+
+
+def _rle_fn_then_add(fi, n0, n1, gap, late):
+    """create_rle(values, fn) followed by further add() calls is the run-length encoding of fn applied to ALL the values, those given at once
+    and those added later (the function belongs to the encoding)."""
+    fn = FNS[fi]
+    first = [0x50 + 0x80 * i for i in range(n0)]
+    more = [0x50 + 0x80 * (n0 + i) + (gap if i >= late else 0) for i in range(n1)]
+    rle = Rle.create_rle(first, fn) if fn is not None else Rle.create_rle(first)
+    for v in more:
+        rle.add(v)
+    mark.hit()
+    want = [fn(v) if fn is not None else v for v in first + more]
+    if rle.num_values() != len(want) or list(rle.values()) != want:
+        return False
+    for i in range(len(want)):
+        if rle.value(i) != want[i] or rle.value(i - len(want)) != want[i]:
+            return False
+    if want and (rle.first() != want[0] or rle.last() != want[-1]):
+        return False
+    return True
+
+
+def rle_fn_then_add(fi: int, n0: int, n1: int, gap: int, late: int) -> bool:
+    """
+    pre: 0 <= fi <= 3 and 1 <= n0 <= 4 and 0 <= n1 <= 3 and gap in (0, 1, 0x130) and 0 <= late <= 2
+    post: _
+    """
+    fi, n0, n1, gap, late = mark.pick(fi, 0, 3), mark.pick(n0, 1, 4), mark.pick(n1, 0, 3), mark.pick_from(gap, (0, 1, 0x130)), mark.pick(late, 0, 2)
+    with mark.untraced():
+        return _rle_fn_then_add(fi, n0, n1, gap, late)
